@@ -23,13 +23,18 @@ CHECKS = {
     "C04": K("TestC04(K|D)", quick=500, thorough=4000, qenv={"VERIF_D_FACTOR": 20}, tenv={"VERIF_D_FACTOR": 50}),
     "C05": K("TestC05", quick=600, thorough=5000),
     "C06": K("TestC06", quick=600, thorough=5000),
+    "C07": K("TestC07(K|A)", quick=250, thorough=1500, level="fault_enumeration"),
     "C08": K("TestC08", quick=600, thorough=5000),
     "C09": K("TestC09(K|D)", quick=400, thorough=3000, qenv={"VERIF_D_FACTOR": 3}, tenv={"VERIF_D_FACTOR": 5}),
+    "C10": K("TestC10(K|A)", quick=200, thorough=1500, pkg="cli"),
     "C11": K("TestC11", quick=600, thorough=5000),
     "C12": K("TestC12", quick=600, thorough=5000),
     "C13": K("TestC13", quick=600, thorough=5000),
+    "C14": K("TestC14(A|Hooks)", quick=80, thorough=500),
     "C15": K("TestC15", quick=400, thorough=3000),
     "C16": K("TestC16", quick=300, thorough=2000),
     "C17": K("TestC17", quick=1500, thorough=12000, level="fault_enumeration"),
+    "C18": K("TestC18(K|A)", quick=250, thorough=1500),
     "C19": K("TestC19", quick=300, thorough=2500),
+    "C20": K("TestC20(Binary)?", quick=150, thorough=1500, pkg="cli"),
 }
